@@ -10,8 +10,10 @@ table regenerated from the source on every run (`Vgi.Generated.C22.table`).
 * `generated_table_ok`, `generated_table_recognised` — decided on the regenerated table: every
   registered route is one of the exempt routes (by pattern) or its handler calls
   `h.authenticate(w, r)` first, returns on nil, and runs nothing but config nil-guards / pure reads
-  before it; ServeHTTP calls handlers directly only in its OPTIONS branch; every registrar, guard
-  and pattern is one the model interprets.
+  before it; ServeHTTP calls handlers directly only in its OPTIONS branch; `authenticate` returns a
+  non-nil context only as `Anonymous()` under `h.authenticateFunc == nil` or as the authenticator's
+  own context after `if err != nil { …; return nil }`; every registrar, guard and pattern is one the
+  model interprets.
 * `reject_does_no_work` — for EVERY table with that property, every configuration (any prefix, any
   feature combination, any operator routes), every request and every way of refusing: a request that
   lands on a non-exempt route produces no event and is answered by the gate (or by a disabled-feature
@@ -36,9 +38,17 @@ theorem generated_table_recognised : ∀ r ∈ table.routes, routeRecognised r =
 
 /-- non-vacuity: the table has gated and exempt routes, and a handler with a nil-guard before the
 authenticate call -/
-example : (table.routes.filter fun r => !(classify r.pattern).exempt).length = 5 := by decide
+example : (table.routes.filter fun r => !(classify r.pattern).exempt).length ≥ 5 := by decide
 example : (table.routes.filter fun r => (classify r.pattern).exempt).length ≥ 10 := by decide
-example : (table.handlers.filter fun h => h.hasAuth && !h.preAuth.isEmpty).length = 1 := by decide
+example : (table.handlers.filter fun h => h.hasAuth && !h.preAuth.isEmpty).length ≥ 1 := by decide
+
+/-- the gate facts are not vacuous: `authenticate` has four returns, two of them non-nil -/
+example : table.gate.returns.length ≥ 3 ∧ (table.gate.returns.filter fun r => r.expr != "nil").length = 2 := by
+  decide
+
+/-- a gate that hands out `Anonymous()` inside its error branch is refused -/
+example : ¬ TableOK { table with gate := { table.gate with returns :=
+    { conds := ["err != nil"], expr := "Anonymous()" } :: table.gate.returns } } := by decide
 
 /-- a table whose upload route handler has no authenticate call (the tree before the F22 repair) is
 refused -/
@@ -427,27 +437,35 @@ theorem post_resolves_gated (cfg : Cfg) (hc : cfg.custom = []) (req : Req) (hv :
         rw [hno] at hcs
         cases hcs
 
-def unaryFact : RouteFact :=
-  { registrar := "initRoutes", conds := [], pattern := .pat (some "POST") [.pfx, .wild] .exact,
-    handler := "handleUnary", wrapper := "" }
-def streamInitFact : RouteFact :=
-  { registrar := "initRoutes", conds := [], pattern := .pat (some "POST") [.pfx, .wild, .lit "init"] .exact,
-    handler := "handleStreamInit", wrapper := "" }
-def continuationFact : RouteFact :=
-  { registrar := "initRoutes", conds := [], pattern := .pat (some "POST") [.pfx, .wild, .lit "exchange"] .exact,
-    handler := "handleStreamExchange", wrapper := "" }
+/-- a registration made unconditionally by `initRoutes` is live in every configuration -/
+theorem activate_unconditional (cfg : Cfg) {r : RouteFact} {v : Option String} {segs : List PSeg}
+    {tail : PTail} (h1 : r.registrar = "initRoutes") (h2 : r.conds = [])
+    (h3 : r.pattern = .pat v segs tail) :
+    activate cfg r = some { pat := { verb := v, segs := instSegs cfg.pfx segs, tail := tail }, fact := r } := by
+  simp [activate, h1, h2, h3, registrarRuns]
 
-theorem rpc_facts_registered :
-    unaryFact ∈ table.routes ∧ streamInitFact ∈ table.routes ∧ continuationFact ∈ table.routes := by decide
+def unconditional (r : RouteFact) (p : PatFact) : Prop :=
+  r.registrar = "initRoutes" ∧ r.conds = [] ∧ r.pattern = p
+
+instance (r : RouteFact) (p : PatFact) : Decidable (unconditional r p) := by
+  unfold unconditional; infer_instance
+
+/-- decided on the regenerated table: the three RPC patterns are registered unconditionally
+(whatever their handlers are called) -/
+theorem rpc_patterns_registered :
+    (∃ r ∈ table.routes, unconditional r (.pat (some "POST") [.pfx, .wild] .exact)) ∧
+    (∃ r ∈ table.routes, unconditional r (.pat (some "POST") [.pfx, .wild, .lit "init"] .exact)) ∧
+    (∃ r ∈ table.routes, unconditional r (.pat (some "POST") [.pfx, .wild, .lit "exchange"] .exact)) := by
+  decide
 
 /-- `POST {prefix}/{m}` — for every prefix, every `m`, every feature combination (no operator
 routes) — resolves to a gated route (the unary route, or token introspection). -/
 theorem rpc_unary_paths_gated (cfg : Cfg) (hc : cfg.custom = []) (m : String) (req : Req)
     (hv : req.verb = "POST") (hp : req.path = cfg.pfx ++ [m]) (hs : req.slash = false) :
     ∃ a, resolve table cfg req = some a ∧ (classify a.fact.pattern).exempt = false := by
-  refine post_resolves_gated cfg hc req hv [m] hp hs
-    { pat := { verb := some "POST", segs := instSegs cfg.pfx [.pfx, .wild], tail := .exact }, fact := unaryFact }
-    unaryFact rpc_facts_registered.1 (by simp [activate, unaryFact, registrarRuns]) rfl ?_ (by simp [segsMatch])
+  obtain ⟨r, hr, h1, h2, h3⟩ := rpc_patterns_registered.1
+  refine post_resolves_gated cfg hc req hv [m] hp hs _ r hr (activate_unconditional cfg h1 h2 h3) rfl ?_
+    (by simp [segsMatch])
   simp only [instSegs]
   rw [hp, segsMatch_prefix]
   simp [segsMatch]
@@ -456,10 +474,8 @@ theorem rpc_unary_paths_gated (cfg : Cfg) (hc : cfg.custom = []) (m : String) (r
 theorem stream_init_paths_gated (cfg : Cfg) (hc : cfg.custom = []) (m : String) (req : Req)
     (hv : req.verb = "POST") (hp : req.path = cfg.pfx ++ [m, "init"]) (hs : req.slash = false) :
     ∃ a, resolve table cfg req = some a ∧ (classify a.fact.pattern).exempt = false := by
-  refine post_resolves_gated cfg hc req hv [m, "init"] hp hs
-    { pat := { verb := some "POST", segs := instSegs cfg.pfx [.pfx, .wild, .lit "init"], tail := .exact },
-      fact := streamInitFact }
-    streamInitFact rpc_facts_registered.2.1 (by simp [activate, streamInitFact, registrarRuns]) rfl ?_
+  obtain ⟨r, hr, h1, h2, h3⟩ := rpc_patterns_registered.2.1
+  refine post_resolves_gated cfg hc req hv [m, "init"] hp hs _ r hr (activate_unconditional cfg h1 h2 h3) rfl ?_
     (by simp [segsMatch])
   simp only [instSegs]
   rw [hp, segsMatch_prefix]
@@ -469,10 +485,8 @@ theorem stream_init_paths_gated (cfg : Cfg) (hc : cfg.custom = []) (m : String) 
 theorem continuation_paths_gated (cfg : Cfg) (hc : cfg.custom = []) (m : String) (req : Req)
     (hv : req.verb = "POST") (hp : req.path = cfg.pfx ++ [m, "exchange"]) (hs : req.slash = false) :
     ∃ a, resolve table cfg req = some a ∧ (classify a.fact.pattern).exempt = false := by
-  refine post_resolves_gated cfg hc req hv [m, "exchange"] hp hs
-    { pat := { verb := some "POST", segs := instSegs cfg.pfx [.pfx, .wild, .lit "exchange"], tail := .exact },
-      fact := continuationFact }
-    continuationFact rpc_facts_registered.2.2 (by simp [activate, continuationFact, registrarRuns]) rfl ?_
+  obtain ⟨r, hr, h1, h2, h3⟩ := rpc_patterns_registered.2.2
+  refine post_resolves_gated cfg hc req hv [m, "exchange"] hp hs _ r hr (activate_unconditional cfg h1 h2 h3) rfl ?_
     (by simp [segsMatch])
   simp only [instSegs]
   rw [hp, segsMatch_prefix]
